@@ -75,6 +75,30 @@ def gen_cases(tier, seed):
                     c = cl.H(cfgv).call(5, inv.args, inv.blobs, [(10, bytes([0x67, odd, 0x11, 0x22])), (20, bytes([0x67, v]))]).case(5000, '%s / key echo' % inv.name)
                     EXPECT[c.line()] = False
                     yield c
+    # snapshots by DTC number with a specific record number: a reply that holds the requested record AND a record nobody asked for
+    # (before or after it) does not answer the request; two records of the requested number do
+    for inv in invocations():
+        if inv.callid != 29 or inv.args[0] not in (0x04, 0x18):
+            continue
+        for want in (2, 0x80):
+            args = list(inv.args)
+            args[10], args[11] = 1, want
+            hdr = bytes([0x59, inv.args[0]]) + (bytes([args[15]]) if inv.args[0] == 0x18 else b'') + b'\x12\x34\x56\x24'
+
+            def rec(n, v):
+                return bytes([n, 1]) + b'\x01\x02' + bytes([v])
+            for other in (want + 1, want - 1, 0, 0xFE):
+                for body, ok, what in ((rec(want, 0x77) + rec(other, 0x78), False, 'requested record then another'),
+                                       (rec(other, 0x78) + rec(want, 0x77), False, 'another record then the requested one'),
+                                       (rec(want, 0x77) + rec(want, 0x78), True, 'two records of the requested number')):
+                    for unx in (1, 0):
+                        cfgv = list(cl.DEFAULT_CFG)
+                        for s_, x in inv.cfg.items():
+                            cfgv[s_] = x
+                        cfgv[cl.EX_UNX] = unx
+                        c = cl.H(cfgv).call(29, args, inv.blobs, [(10, hdr + body)]).case(5000, '%s / %s' % (inv.name, what))
+                        EXPECT[c.line()] = ok
+                        yield c
     yield from gen_arg_sweep(tier, seed)
 
 
@@ -132,7 +156,7 @@ def gen_arg_sweep(tier, seed):
             continue
         seen = set()
         for cfgo, args, blobs, tag in argspace.variants(inv, rnd, tier):
-            if tag in ('template', 'data string', 'path', 'edition') or len(blobs) and max(len(b) for b in blobs) > 300:
+            if tag in ('template', 'data string', 'path', 'edition', 'did list x did table') or len(blobs) and max(len(b) for b in blobs) > 300:
                 continue
             cfgv = list(base_cfg)
             for s, v in cfgo.items():
